@@ -1,4 +1,5 @@
 import MpfVerif.Lemmas.Framing
+import MpfVerif.Lemmas.Framing2
 /-!
 # C14 — Serial links: framing, integrity and command flow control
 
@@ -425,5 +426,171 @@ theorem pkone_frames_after_noise_delivered (buf g : Bytes) (fs : List Bytes)
   apply List.map_congr_left
   intro f hf
   exact (pkone_every_frame_handled f).2.2 (h f hf).2.1 (h f hf).2.2
+
+/-! ## Session 3: the protocol code behind the frame decoders (`Model/Framing2.lean`) -/
+
+open MpfVerif.Framing2
+
+/-- PKONE, whole receive path (`_parse_msg` with its in-flight counter and `send_ready`, `process_received_message`,
+`receive_switch`, `receive_all_switches`): the complete state after a byte stream — carried bytes, every report made to the
+switch controller, `hw_switch_data`, counter, `send_ready` — and the observations do not depend on how the bytes were split
+into reads. -/
+theorem pkone_payload_chunking_irrelevant (s : PKSt) (c1 c2 : List Bytes) (h : c1.flatten = c2.flatten) :
+    feedChunks pkStep s c1 = feedChunks pkStep s c2 := by
+  rw [feedChunks_eq_feed, feedChunks_eq_feed, h]
+
+/-- PKONE: a malformed payload never changes a switch.  Whatever frame arrives (any bytes without the delimiter), unless
+it is a well-formed `PSW` report the table of reported switch states is untouched, and unless it is a well-formed `PSA`
+report `hw_switch_data` is untouched; and a frame is a well-formed `PSW` report only if it is exactly
+`PSW` + board digit + two switch digits + `0`/`1` (a truncated, over-long or non-numeric payload reports nothing). -/
+theorem pkone_malformed_changes_nothing (s : PKSt) (f : Bytes) (hd : 69 ∉ f) (hb : s.buf = []) :
+    ((∀ b n st, pkDispatch f ≠ .sw b n st) → (feed pkStep s (f ++ [69])).1.table = s.table) ∧
+    ((∀ b bits, pkDispatch f ≠ .all b bits) → (feed pkStep s (f ++ [69])).1.hw = s.hw) ∧
+    (∀ b n st, pkDispatch f = .sw b n st →
+      ∃ a y z d, f = [80, 83, 87, a, y, z, d] ∧ digit? a = some b ∧ (∃ t u, digit? y = some t ∧ digit? z = some u ∧
+        n = t * 10 + u) ∧ bit? d = some st) := by
+  rw [pk_frame s f hd]
+  simp only [hb, List.nil_append]
+  refine ⟨?_, ?_, ?_⟩
+  · intro h
+    simp only [pkClose]
+    cases hdis : pkDispatch f with
+    | sw b n st => exact absurd hdis (h b n st)
+    | _ => rfl
+  · intro h
+    simp only [pkClose]
+    cases hdis : pkDispatch f with
+    | all b bits => exact absurd hdis (h b bits)
+    | _ => rfl
+  · intro b n st h
+    unfold pkDispatch at h
+    split at h; · cases h
+    split at h; · cases h
+    split at h; · cases h
+    simp only at h
+    split at h
+    · rename_i hh
+      split at h
+      · rename_i a y z d hp
+        split at h
+        · rename_i b' t u st' h1 h2 h3 h4
+          cases h
+          refine ⟨a, y, z, d, ?_, h1, ⟨t, u, h2, h3, rfl⟩, h4⟩
+          have := List.take_append_drop 3 f
+          rw [hh, hp] at this
+          exact this.symm
+        · cases h
+      · cases h
+    · split at h
+      · split at h
+        · split at h <;> cases h
+        · cases h
+      · split at h <;> cases h
+
+/-- PKONE, state = last report: after any sequence of frames — well-formed or not, for any boards — the state the switch
+controller was last told for switch `(b, n)` is the one of the LAST well-formed `PSW` report for it: frames after it that
+are not a report for `(b, n)` (malformed ones included) do not matter, and neither does anything before it. -/
+theorem pkone_state_is_last_report (s : PKSt) (pre post : List Bytes) (f : Bytes) (b n : Nat) (st : Bool)
+    (hb : s.buf = []) (hd : ∀ g ∈ pre ++ f :: post, 69 ∉ g) (hf : pkDispatch f = .sw b n st)
+    (hpost : ∀ g ∈ post, ∀ st', pkDispatch g ≠ .sw b n st') :
+    lookupSw (b, n) (feed pkStep s ((pre ++ f :: post).flatMap (· ++ [69]))).1.table = some st := by
+  rw [(pk_frames_table _ s hb hd).1]
+  have hsw : swOf f = some ((b, n), st) := by simp [swOf, hf]
+  simp only [List.filterMap_append, List.filterMap_cons, hsw, List.reverse_append, List.reverse_cons, List.append_assoc]
+  rw [lookup_skip]
+  · simp [lookupSw]
+  · intro e he
+    rw [List.mem_reverse, List.mem_filterMap] at he
+    obtain ⟨g, hg, hge⟩ := he
+    intro hk
+    unfold swOf at hge
+    cases hdis : pkDispatch g with
+    | sw b' n' st' =>
+      rw [hdis] at hge
+      simp only [Option.some.injEq] at hge
+      rw [← hge] at hk
+      simp only [Prod.mk.injEq] at hk
+      exact hpost g hg st' (by rw [hdis, hk.1, hk.2])
+    | _ => rw [hdis] at hge; cases hge
+
+/-- PKONE in-flight counter: after any bytes the counter has gone down by the number of delimiters received and never
+below zero (truncated subtraction), whatever the frames contained; `send_ready`, once set, is never cleared by the reader. -/
+theorem pkone_inflight_counter (s : PKSt) (l : Bytes) :
+    (feed pkStep s l).1.inflight = s.inflight - l.count 69 ∧ (s.ready = true → (feed pkStep s l).1.ready = true) :=
+  ⟨(pk_inflight l s).1, (pk_inflight l s).2.1⟩
+
+/-- non-vacuity: a report, its truncation (which must not be read as "switch 7 active"), a valid frame after it -/
+example : (feed pkStep { inflight := 2 } ([80, 83, 87, 48, 48, 55, 48, 69] ++ [80, 83, 87, 48, 48, 55, 69] ++
+    [80, 83, 87, 48, 49, 50, 49, 69])).2 = [.sw 0 7 false, .skipped, .sw 0 12 true] := by decide
+
+/-- OPP initialisation framing (after the repair): `readuntil(EOM, 7·n)` returns the complete reply of `n` cards — the
+`7·n` response bytes and the EOM — whatever the response bytes are, including CRC or payload bytes equal to the EOM
+value, and leaves what follows in the stream. -/
+theorem opp_readuntil_whole_reply (body rest : Bytes) (n : Nat) (h : body.length = 7 * n) :
+    readUntil 255 (7 * n) [] (body ++ 255 :: rest) = some (body ++ [255], rest) := by
+  have := readUntil_body 255 (7 * n) body rest [] (by simp [h])
+  simpa using this
+
+/-- Defect found by the extension (repaired): with the old minimum length 6 a card whose GET_GEN2_CFG response has CRC
+byte `0xff` (address `0x21`, wings input / hi-side incand / matrix-out / input) ends the reply after 7 bytes; the second
+card's response stays in the stream. -/
+theorem opp_readuntil_min6_witness :
+    crc8 [0x21, 13, 2, 7, 10, 2] = 255 ∧
+    readUntil 255 6 [] ([0x21, 13, 2, 7, 10, 2, 255] ++ [0x22, 13, 2, 2, 2, 2, crc8 [0x22, 13, 2, 2, 2, 2]] ++ [255])
+      = some ([0x21, 13, 2, 7, 10, 2, 255], [0x22, 13, 2, 2, 2, 2, crc8 [0x22, 13, 2, 2, 2, 2], 255]) := by
+  decide
+
+/-- OPP, several chained cards: the loop of `get_gen2_cfg_resp` / `vers_resp` over a reply that carries the well-formed
+responses of any number of cards (one after the other, then EOM) accepts exactly those responses, in chain order. -/
+theorem opp_init_all_cards_parsed (cmd : Nat) (c : Nat × Bytes) (cs : List (Nat × Bytes)) (hc : WfCard c)
+    (hcs : ∀ x ∈ cs, WfCard x) :
+    multiParse cmd ((c :: cs).flatMap (enc cmd) ++ [255]) = (c :: cs, .ok) :=
+  multi_all cmd cs c hc hcs
+
+/-- OPP init, a bad frame changes nothing: if the response of one card fails its CRC, exactly the cards before it are
+accepted — nothing is taken from the damaged response nor from anything after it — and the loop reports the bad CRC. -/
+theorem opp_init_bad_crc_stops (cmd : Nat) (pre : List (Nat × Bytes)) (a w0 w1 w2 w3 k : Nat) (tail : Bytes)
+    (hpre : ∀ x ∈ pre, WfCard x) (ha : isAddr a = true) (hk : crc8 [a, cmd, w0, w1, w2, w3] ≠ k) :
+    multiParse cmd (pre.flatMap (enc cmd) ++ [a, cmd, w0, w1, w2, w3, k] ++ tail) = (pre, .crc) :=
+  multi_bad_crc cmd pre a w0 w1 w2 w3 k tail hpre ha hk
+
+/-- non-vacuity: two cards, the second with a damaged payload byte -/
+example : multiParse 13 (enc 13 (0x20, [2, 2, 2, 2]) ++ [0x21, 13, 1, 2, 4, 5, crc8 [0x21, 13, 1, 2, 4, 4]] ++ [255])
+    = ([(0x20, [2, 2, 2, 2])], .crc) := by decide
+example : WfCard (0x20, [2, 2, 2, 2]) := ⟨by decide, rfl⟩
+
+/-- FAST configuration phase (`ID:` `CH:` `SL:` `DL:` `SA:` at boot …): what is decoded and what is carried does not
+depend on how the bytes were split into reads. -/
+theorem fast_cfg_chunking_irrelevant (buf : Bytes) (c1 c2 : List Bytes) (h : c1.flatten = c2.flatten) :
+    feedChunks (dStep CR cfgFrame) buf c1 = feedChunks (dStep CR cfgFrame) buf c2 := by
+  rw [feedChunks_eq_feed, feedChunks_eq_feed, h]
+
+/-- FAST configuration phase, garbage between frames: whatever was carried and whatever garbage `g` arrived, after the
+next `\r` every following response is dispatched exactly as if it had arrived alone, in order (the response glued to the
+garbage is the one that can be lost — a delimiter protocol cannot do better). -/
+theorem fast_cfg_frames_after_garbage (buf g : Bytes) (fs : List Bytes) (h : ∀ f ∈ fs, CR ∉ f) :
+    feed (dStep CR cfgFrame) (feed (dStep CR cfgFrame) buf (g ++ [CR])).1 (fs.flatMap (· ++ [CR]))
+      = ([], fs.flatMap cfgFrame) := by
+  have h0 : (feed (dStep CR cfgFrame) buf (g ++ [CR])).1 = [] := by
+    rw [Framing.feed_append]; simp [feed, dStep]
+  rw [h0]
+  exact dStep_frames CR cfgFrame fs h
+
+/-- non-vacuity + the repaired defect: two `DL:` replies run together after a lost `\r` are skipped as malformed, the
+`SL:` reply after them is processed -/
+example : (feed (dStep CR cfgFrame) [] ([68, 76, 58, 48, 48, 44, 48, 48, 68, 76, 58, 48, 49, 13] ++
+    [83, 76, 58, 48, 48, 44, 48, 48, 44, 48, 48, 44, 48, 48, 13])).2 = [.bad, .done hSL] := by decide
+
+/-- Command order with several callers queued while one is awaited: at every point of every run of calls, fire-and-forget
+sends and responses, the gated commands already written followed by the callers still waiting are exactly the callers in
+call order — no caller overtakes another, none is dropped, none is written twice. -/
+theorem gate_fifo (ops : List GOp) :
+    ((gRun {} ops).written.filter (·.1)).map (·.2) ++ (gRun {} ops).waiting = callIds ops := by
+  have := gRun_fifo ops {} (by intro _; rfl)
+  simpa [gCalls] using this
+
+/-- non-vacuity (and the known finding D7 seen from the callers' side): three callers, one response releases all of them -/
+example : (gRun {} [.call 1, .call 2, .forget 9, .call 3, .resp]).written = [(true, 1), (false, 9), (true, 2), (true, 3)] ∧
+    (gRun {} [.call 1, .call 2, .forget 9, .call 3, .resp]).fin = [1, 2, 3] := by decide
 
 end MpfVerif.C14
